@@ -241,7 +241,8 @@ def run(rep, tier, root=None):
     if len(vals_) != 1 or has_unknown(vals_[0]):
         rep.unknown("stencil.structure-law", D.fq, "cannot normalise the structure function to one closed form", D.where())
     else:
-        v_ = vals_[0]
+        from ..common import origin_guard
+        v_, v_origin = origin_guard(vals_[0], sD)        # a value supplied at exactly s = 0 (the limit of the law there) is C08's subject
         npw = [a for a in v_.atoms() if isinstance(a, Fn) and (a.name in NOT_POINTWISE or (a.name == "cmp" and Rat.atom(a).depends_on(Sym("s"))))]
         kvs = [a for a in v_.atoms() if isinstance(a, Fn) and a.name == "kv"]
         rep.check(not npw and len(kvs) == 1, "stencil.structure-law", D.fq + ": one elementwise Bessel law for every separation",
